@@ -300,9 +300,10 @@ func runC14(c *Ctx) {
 	if run := c.Fn("root", "channelProvider.run"); run != nil {
 		r.Functions[fnQual(run)] = true
 		var one *ssa.If
+		var oneYes *ssa.BasicBlock
 		for _, iff := range ifsIn(run) {
-			if ex(iff.Cond) == "(gomavlib.Endpoint).oneChannelAtAtime(recv.endpoint)" {
-				one = iff
+			if tb, _, hit := succWhen(iff, "(gomavlib.Endpoint).oneChannelAtAtime(recv.endpoint)"); hit {
+				one, oneYes = iff, tb
 			}
 		}
 		pvs := callsIn(run, func(n string, cc *ssa.CallCommon) bool { return cc.IsInvoke() && cc.Method.Name() == "provide" })
@@ -326,7 +327,7 @@ func runC14(c *Ctx) {
 						cb := selectCaseBlock(sel, i)
 						// from the true edge, provide reachable only via this case block
 						if cb != nil {
-							reach := reachFrom(one.Block().Succs[0], nil, map[*ssa.BasicBlock]bool{cb: true})
+							reach := reachFrom(oneYes, nil, map[*ssa.BasicBlock]bool{cb: true})
 							if !reach[pvs[0].Block()] {
 								okWait = true
 							}
@@ -347,7 +348,7 @@ func runC14(c *Ctx) {
 			// error handling: only errTerminated breaks
 			okErr := false
 			for _, iff := range ifsIn(run) {
-				if strings.HasPrefix(ex(iff.Cond), "errors.Is(") && strings.HasSuffix(ex(iff.Cond), ",gomavlib.errTerminated)") {
+				if _, _, _, hit := succWhenFunc(iff, func(cs string) bool { return strings.HasPrefix(cs, "errors.Is(") && strings.HasSuffix(cs, ",gomavlib.errTerminated)") }); hit {
 					okErr = true
 				}
 			}
